@@ -3,6 +3,7 @@
 package c18
 
 import (
+	"errors"
 	"fmt"
 	"math"
 	"strconv"
@@ -27,10 +28,22 @@ type call struct {
 	ntags  int
 }
 
-type recStatter struct{ calls []call }
+// fail: 0 every call returns nil; 1 every call is accepted (recorded) and STILL returns an error, as a
+// fan-out client does when one of its back ends failed or a connected UDP socket reports the ICMP
+// error of an earlier datagram; 2 every other call does. The reporter has no way to know whether a
+// call that returned an error was applied, so "exactly one call per delta" holds regardless.
+type recStatter struct {
+	calls []call
+	fail  int
+}
+
+var errStatter = errors.New("statter: reported an error for a call it accepted")
 
 func (r *recStatter) add(m, n string, i int64, d time.Duration, rate float32, tags []cstatsd.Tag) error {
 	r.calls = append(r.calls, call{m, n, i, d, rate, len(tags)})
+	if r.fail == 1 || r.fail == 2 && len(r.calls)%2 == 1 {
+		return errStatter
+	}
 	return nil
 }
 func (r *recStatter) Inc(n string, v int64, rate float32, t ...cstatsd.Tag) error {
@@ -81,6 +94,7 @@ type Case struct {
 	RateBits  uint32 // float32 bits; 0 = unset
 	Precision uint
 	Ops       []Op
+	Fail      int `json:",omitempty"` // see recStatter
 }
 
 func gen(t *rapid.T) Case {
@@ -98,6 +112,7 @@ func gen(t *rapid.T) Case {
 		c.RateBits = math.Float32bits(r)
 	}
 	c.Precision = uint(rapid.IntRange(0, 12).Draw(t, "prec"))
+	c.Fail = rapid.SampledFrom([]int{0, 0, 1, 2}).Draw(t, "fail")
 	n := rapid.IntRange(1, 8).Draw(t, "nops")
 	for i := 0; i < n; i++ {
 		op := Op{Kind: rapid.SampledFrom([]string{"counter", "gauge", "timer", "vhist", "vhist", "dhist"}).Draw(t, "kind")}
@@ -164,7 +179,7 @@ func refDuration(d time.Duration) string {
 func run(c Case) (pbt.Outcome, error) {
 	var errs pbt.Errs
 	var out pbt.Outcome
-	st := &recStatter{}
+	st := &recStatter{fail: c.Fail}
 	rate := math.Float32frombits(c.RateBits)
 	r := tstatsd.NewReporter(st, tstatsd.Options{SampleRate: rate, HistogramBucketNamePrecision: c.Precision})
 	wantRate := rate
